@@ -274,6 +274,7 @@ Proof.
     eapply cpost_weaken; [apply IH; auto; unfold kap in *; lia|]. intros a s' X1 X2 (X3 & X4); split; auto; lia. }
   destruct (tis tk pit_Case || tis tk pit_Default) eqn:E3.
   { assert (Hnz : t_typ tk <> 0) by (intro X; unfold tis in E3; rewrite X in E3; vm_compute in E3; discriminate).
+    destruct (last_is_default cases); [cerr|].
     eapply cpost_bind; [apply case_loop_ok; auto; unfold kap in *; lia|]. intros c s2 Hi2 Hb2 H2. cbn beta in H2.
     eapply cpost_weaken; [apply IH; auto; unfold kap in *; lia|]. intros a s' X1 X2 (X3 & X4); split; auto; lia. }
   tcase tk endt E4.
